@@ -49,10 +49,12 @@ type Node struct {
 
 // Beh: what the file at Path (relative to the hooks directory) does on --config.
 // Code 1 = the run fails, 2 = prints an invalid configuration; Variant selects the concrete script.
+// Code 0 = prints a VALID configuration: the one of shape Shape (configs.go; 0 = the default onStartup one).
 type Beh struct {
 	Path    string `json:"path"`
 	Code    int    `json:"code"`
 	Variant int    `json:"variant,omitempty"`
+	Shape   int    `json:"shape,omitempty"`
 }
 
 // A Name (and an element of a Beh.Path) of the form "@k", k >= 1, is a PLACEHOLDER for the last k
@@ -85,6 +87,7 @@ type IndexEntry struct {
 type Observation struct {
 	Paths  []string     `json:"paths"`
 	Init   *InitObs     `json:"init,omitempty"`
+	Bound  [][]string   `json:"bound,omitempty"`  // after Init: GetHooksInOrder for each binding type, in the order of bindingTypes
 	Index  []IndexEntry `json:"index,omitempty"`  // after Init: GetHook for every name of GetHookNames(), then for the relative path of every discovered file
 	Broken string       `json:"broken,omitempty"` // the harness itself could not set the case up
 	// the input as it was on disk, in the symbolic naming shown to Coq (placeholders expanded)
@@ -206,7 +209,13 @@ func script(logPath string, b *Beh) string {
 		default:
 			return s + "echo oops >&2\nkill -9 $$\n"
 		}
+	case 0:
+		return s + printConfig(shapeText(b.Shape))
 	case 2:
+		if b.Variant >= 100 {
+			// an invalid configuration that declares no binding
+			return s + printConfig(invalidEmptyConfigs[(b.Variant-100)%len(invalidEmptyConfigs)])
+		}
 		switch b.Variant % 4 {
 		case 0:
 			return s + "echo 'this is not a config'\n"
@@ -365,6 +374,18 @@ func Run(in Input) Observation {
 	for _, n := range hm.GetHookNames() {
 		lookup(n)
 	}
+	// the index by binding type
+	for _, bt := range bindingTypes {
+		names, err := hm.GetHooksInOrder(bt)
+		row := []string{}
+		if err != nil {
+			row = append(row, "ERROR "+err.Error())
+		}
+		for _, n := range names {
+			row = append(row, sym(n))
+		}
+		o.Bound = append(o.Bound, row)
+	}
 	sorted := append([]string{}, paths...)
 	sort.Strings(sorted)
 	for _, p := range sorted {
@@ -482,7 +503,7 @@ func Render(in Input, obs *Observation, crash string) core.Case {
 	if o.SymParent != "" {
 		symParent, nodes, beh = o.SymParent, o.SymNodes, o.SymBeh
 	}
-	behs := core.CoqList(beh, func(b Beh) string { return fmt.Sprintf("(%s, %d)", core.CoqBytes(b.Path), b.Code) })
+	behs := core.CoqList(beh, func(b Beh) string { return fmt.Sprintf("(%s, %d)", core.CoqBytes(b.Path), b.coqCode()) })
 	initObs := "None"
 	if o.Init != nil {
 		initObs = fmt.Sprintf("(Some (mkInitObs %s %d %s %s))", coqPaths(o.Init.Asked), o.Init.Status, core.CoqBytes(o.Init.Named), coqPaths(o.Init.Names))
@@ -492,7 +513,8 @@ func Render(in Input, obs *Observation, crash string) core.Case {
 	index := core.CoqList(o.Index, func(e IndexEntry) string {
 		return fmt.Sprintf("(%s, %s)", core.CoqBytes(e.Name), core.CoqBytes(e.Path))
 	})
-	c.Coq = fmt.Sprintf("(%s,\n  mkObs %s %s %s)", inputTerm, coqPaths(o.Paths), initObs, index)
+	bound := core.CoqList(o.Bound, coqPaths)
+	c.Coq = fmt.Sprintf("(%s,\n  mkObs %s %s %s,\n  %s)", inputTerm, coqPaths(o.Paths), initObs, index, bound)
 	c.JSON = o
 	c.Key = inputTerm
 	files, dirs, depth := countNodes(nodes)
@@ -556,6 +578,9 @@ func Render(in Input, obs *Observation, crash string) core.Case {
 	c.Tags = append(c.Tags, kindTags(nodes, o.Paths)...)
 	if hasName(nodes, func(n Node) bool { return !n.Dir && n.Mode&0o111 != 0 && n.Mode&0o100 == 0 }) {
 		c.Tags = append(c.Tags, "has:group/other-x-only")
+	}
+	if in.Init && o.Init != nil {
+		c.Tags = append(c.Tags, configTags(beh, stripAll(o.Paths, symParent+"/"+in.Root+"/"))...)
 	}
 	if in.Init {
 		c.Tags = append(c.Tags, "init")
@@ -786,6 +811,16 @@ func (g *gen) nestedRandom() Input {
 	return in
 }
 
+// stripAll: the paths with the prefix cut off, sorted (the load order)
+func stripAll(ps []string, prefix string) []string {
+	var out []string
+	for _, p := range ps {
+		out = append(out, strings.TrimPrefix(p, prefix))
+	}
+	sort.Strings(out)
+	return out
+}
+
 func f(name string, mode int) Node         { return Node{Name: name, Mode: mode} }
 func d(name string, children ...Node) Node { return Node{Name: name, Dir: true, Children: children} }
 func tr(root string, nodes ...Node) Input  { return Input{Root: root, Nodes: nodes} }
@@ -794,7 +829,7 @@ func withInit(in Input, beh ...Beh) Input  { in.Init = true; in.Beh = beh; retur
 // Corpus: witnesses and past failures; runs first.
 func Corpus() []Input {
 	// the file-name rule (seeded change C20-6): names that end in the LETTERS of an excluded extension, first
-	return append(append(namesCorpus(), corpusTrees()...), kindsCorpus()...)
+	return append(append(append(namesCorpus(), corpusTrees()...), kindsCorpus()...), configsCorpus()...)
 }
 
 func corpusTrees() []Input {
@@ -897,17 +932,20 @@ func Gen(r *core.Rng, tier string) ([]core.In[Input], bool) {
 	g := &gen{r: r}
 	nTrees, nInit, nNested := 150, 30, 60
 	nKinds := 70
+	nConfigs := 60
 	sysRoots, sysKs, sysReps := []string{"hooks"}, chainLens, 2
 	nNames, seps, exLen := 120, sepQuick, 4
 	switch tier {
 	case "thorough":
 		nTrees, nInit, nNested = 5000, 600, 3000
 		nKinds = 4000
+		nConfigs = 4000
 		sysRoots, sysKs, sysReps = []string{"hooks", "h", "lib", ".h"}, []int{1, 2, 3, 4, 5, 6, 99}, 3
 		nNames, seps, exLen = 8000, sepThorough(), 5
 	case "search":
 		nTrees, nInit, nNested = 1500, 150, 800
 		nKinds = 1500
+		nConfigs = 1500
 		sysReps = 3
 		nNames = 1500
 	}
@@ -952,6 +990,13 @@ func Gen(r *core.Rng, tier string) ([]core.In[Input], bool) {
 	for i := 0; i < nKinds; i++ {
 		ins = append(ins, core.In[Input]{Input: g.kindsRandom(), Stream: "kinds-random"})
 	}
+	// configuration shapes (after the older streams, see above)
+	for _, c := range configsSystematic(tier == "thorough") {
+		ins = append(ins, core.In[Input]{Input: c, Stream: "configs-systematic"})
+	}
+	for i := 0; i < nConfigs; i++ {
+		ins = append(ins, core.In[Input]{Input: g.configsRandom(), Stream: "configs-random"})
+	}
 	if tier == "thorough" || tier == "search" {
 		maxNodes := 4
 		if tier == "search" {
@@ -979,7 +1024,15 @@ func Extra() map[string]any {
 			}
 			return m
 		}(),
-		"kinds_scope":      kindsScope,
+		"kinds_scope":   kindsScope,
+		"configs_scope": configsScope,
+		"config_shapes": func() []string {
+			var out []string
+			for k, sh := range shapes {
+				out = append(out, fmt.Sprintf("%d %s: %s", k, sh.label, sh.text))
+			}
+			return out
+		}(),
 		"nested_scope":     "nested-systematic: [mod/](<chain>/){1..reps}{b.sh,start.sh} + a file x per level + siblings named like the paths with the chain cut out; <chain> = the last k elements of the hooks directory's own absolute path, k in 1,2,3,whole (thorough: 1..6,whole; roots hooks,h,lib,.h; reps <= 3), 4 scenarios each (discovery, Init ok, Init with the innermost hook invalid, Init with the glued sibling failing); nested-random: 1-3 chains at random places of a random forest",
 		"exhaustive_scope": "thorough: every forest with <= 4 nodes (files 0644/0755, directories) over the names " + strings.Join(exNames, ",") + " with sibling names distinct, under the roots hooks and lib",
 		"name_pool":        namePool,
@@ -990,6 +1043,6 @@ func Extra() map[string]any {
 
 var Driver = core.Driver[Input, Observation]{
 	Spec: core.Spec{Property: "C20", Imports: []string{"C20_Model", "C20_Spec", "C20_Corr"}, Corr: "C20_Corr", Triggers: nil, ShrinkKey: "nodes",
-		Rule: "entry kinds: real symbolic links and FIFOs on disk in every position (top level, nested, below lib and hidden directories) pointing to scripts below lib / hidden directories / next to them / out of the tree, to directories, to nothing, to files without execute bits, to other links (streams kinds-systematic, kinds-random; what each link resolves to is checked with os.Stat; every entry judged by kind by C20_Spec.PX_kinds); directory trees created on disk (depth <= 4, names from a pool with lib, hidden names, excluded and near-excluded extensions, collisions across directories, 13 modes, hooks directory itself named lib/hidden in ~40%); trees in which the hooks directory's own path (last element, trailing elements, whole absolute path) occurs again below it, once or several times, with siblings named like a cut path (streams nested-systematic, nested-random); by-name index looked up after every Init run (GetHook for every loaded name and for the relative path of every discovered file); file names around every excluded extension, character by character (streams names-systematic, names-exhaustive, names-random; every file of every tree judged one by one by C20_Spec.P_files); streams: corpus, random (RecursiveGetExecutablePaths only), init (real hook.Manager.Init on bash scripts that log their --config invocation; 65% of them with misbehaving files), exhaustive (thorough); non-trivial = at least one hook discovered and at least one file left out; distinct = distinct input term"},
+		Rule: "configuration shapes: what a hook answers to --config (no binding at all, one binding of each kind alone, several, v0 and v1, JSON and YAML) at every position of the tree and of the load order, GetHooksInOrder read for every binding type (streams configs-systematic, configs-random; C20_Spec.P_hook_set judges GetHookNames / GetHook against the discovery whatever the configurations declare); entry kinds: real symbolic links and FIFOs on disk in every position (top level, nested, below lib and hidden directories) pointing to scripts below lib / hidden directories / next to them / out of the tree, to directories, to nothing, to files without execute bits, to other links (streams kinds-systematic, kinds-random; what each link resolves to is checked with os.Stat; every entry judged by kind by C20_Spec.PX_kinds); directory trees created on disk (depth <= 4, names from a pool with lib, hidden names, excluded and near-excluded extensions, collisions across directories, 13 modes, hooks directory itself named lib/hidden in ~40%); trees in which the hooks directory's own path (last element, trailing elements, whole absolute path) occurs again below it, once or several times, with siblings named like a cut path (streams nested-systematic, nested-random); by-name index looked up after every Init run (GetHook for every loaded name and for the relative path of every discovered file); file names around every excluded extension, character by character (streams names-systematic, names-exhaustive, names-random; every file of every tree judged one by one by C20_Spec.P_files); streams: corpus, random (RecursiveGetExecutablePaths only), init (real hook.Manager.Init on bash scripts that log their --config invocation; 65% of them with misbehaving files), exhaustive (thorough); non-trivial = at least one hook discovered and at least one file left out; distinct = distinct input term"},
 	Gen: Gen, Run: Run, Render: Render, PerShard: 30, Workers: 8, CaseTimout: 30 * time.Second, Extra: Extra,
 }
